@@ -108,6 +108,24 @@ fn check_eq_pair<P: TP>(env: &mut Env, what: &'static str, a: &PrefixMap<P, u64>
     let got_s = sa == sb;
     ensure!(got_s == want_s, "C19", format!("C19:set-eq:{}", if want_s { "equal-contents-reported-different" } else if ka.len() != kb.len() { "strict-prefix-reported-equal" } else { "different-contents-reported-equal" }), "{what}: set a == set b is {got_s}, key sequences are {} ({} vs {} keys)", if want_s { "equal" } else { "different" }, ka.len(), kb.len());
     ensure!((sb == sa) == got_s && (sa != sb) == !got_s, "C19", "C19:set-eq:asymmetric", "{what}: set equality is not symmetric / != is not its negation");
+    // the same set with value-less leftover nodes (other shape, same entries) behaves identically
+    let mut sd = sa.clone();
+    let mut debris = 0;
+    for r in env.uni.clone() {
+        let p: P = mk(r);
+        if !sd.contains(&p) {
+            sd.insert(p.clone());
+            sd.remove_keep_tree(&p);
+            debris += 1;
+        }
+    }
+    if debris > 0 {
+        ensure!(sd == sa && sa == sd, "C19", "C19:set-eq:equal-contents-reported-different", "{what}: a set with {debris} value-less leftover nodes is not equal to the set with the same {} prefixes", ka.len());
+        ensure!((sd == sb) == want_s && (sb == sd) == want_s, "C19", "C19:set-eq:shape-dependent", "{what}: equality of a set with leftover nodes against another set is {} but the key sequences are {}", sd == sb, if want_s { "equal" } else { "different" });
+        let rebuilt: PrefixSet<P> = sd.iter().cloned().collect();
+        ensure!(rebuilt == sd && sd == rebuilt, "C19", "C19:set-collect:not-equal", "{what}: a set with leftover nodes is not equal to the set rebuilt from its own prefixes");
+        env.ev("set_same_entries_different_shape");
+    }
     env.ev(if want { "pair_equal" } else { "pair_different" });
     Ok(())
 }
